@@ -698,6 +698,12 @@ func checkPTimes(c *checker, d *def, l *Lit, pos token.Pos) {
 		return x.Int
 	}
 	c0, c1 := get("p_times_sixteen_0"), get("p_times_sixteen_1234")
+	if c.p.Obj("internal/field", "p_times_sixteen_0") == nil || c.p.Obj("internal/field", "p_times_sixteen_1234") == nil {
+		// not the 51-bit pair (another back end uses one of the names for its own bias limbs): the bias
+		// vectors are decided where they are used, by the E-LIN identities of Sub / Neg
+		c.out.ok("value", d.name)
+		return
+	}
 	if c0 == nil || c1 == nil {
 		c.out.fail("value", c.pos(pos), d.name, "the pair p_times_sixteen_0 / p_times_sixteen_1234 is not a pair of integer constants")
 		return
